@@ -31,6 +31,79 @@ func c01Values() map[string][]byte {
 	return map[string][]byte{"empty": {}, "1B": {0x41}, "16B": []byte("sixteen-bytes-xx"), "33B": bytes.Repeat([]byte{0x5a}, 33), "1KiB": big, "binary": bin}
 }
 
+// c01LegacyStore: a store whose keyring and entries were written in the legacy record
+// format (an installation that predates the bound format) is opened by a fresh barrier
+// object, with and without a rotation / a keyring reload in between: every record the
+// fresh barrier WRITES must be in the current, key-bound format (the statement allows
+// legacy records to be relocatable, not new ones).
+func c01LegacyStore(t *testing.T, res *vout.Result) {
+	for _, step := range []string{"unseal", "unseal+rotate", "unseal+reload", "unseal+seal+unseal"} {
+		inm, err := inmem.NewInmem(nil, log.NewNullLogger())
+		if err != nil {
+			t.Fatal(err)
+		}
+		old := c10Raw(NewAESGCMBarrier(inm, nil))
+		old.currentAESGCMVersionByte = AESGCMVersion1
+		rk, _ := old.GenerateKey()
+		if err := old.Initialize(c10ctx, rk, nil); err != nil {
+			t.Fatal(err)
+		}
+		if err := old.Unseal(c10ctx, rk); err != nil {
+			t.Fatal(err)
+		}
+		old.currentAESGCMVersionByte = AESGCMVersion1
+		if _, err := old.Rotate(c10ctx); err != nil { // rewrites the keyring in the legacy format
+			t.Fatal(err)
+		}
+		if err := old.Put(c10ctx, &logical.StorageEntry{Key: "legacy", Value: []byte("L")}); err != nil {
+			t.Fatal(err)
+		}
+		_ = old.Seal()
+		fresh := c10Raw(NewAESGCMBarrier(inm, nil))
+		if err := fresh.Unseal(c10ctx, rk); err != nil {
+			t.Fatalf("harness: unseal of the legacy store: %v", err)
+		}
+		switch step {
+		case "unseal+rotate":
+			if _, err := fresh.Rotate(c10ctx); err != nil {
+				t.Fatal(err)
+			}
+		case "unseal+reload":
+			if err := fresh.ReloadKeyring(c10ctx); err != nil {
+				t.Fatal(err)
+			}
+		case "unseal+seal+unseal":
+			_ = fresh.Seal()
+			if err := fresh.Unseal(c10ctx, rk); err != nil {
+				t.Fatal(err)
+			}
+		}
+		for _, k := range []string{"new/a", "new/b"} {
+			if err := fresh.Put(c10ctx, &logical.StorageEntry{Key: k, Value: []byte("N-" + k)}); err != nil {
+				t.Fatal(err)
+			}
+			pe, _ := inm.Get(c10ctx, k)
+			res.Add("evaluations", 1)
+			if pe == nil || len(pe.Value) < 5 || pe.Value[4] != AESGCMVersion2 {
+				v := -1
+				if pe != nil && len(pe.Value) >= 5 {
+					v = int(pe.Value[4])
+				}
+				res.Violate("c01:tamper:legacy-store:new-write-in-legacy-format", fmt.Sprintf("store with a legacy-format keyring, %s: a new write of %q is stored with record format %d, not the current key-bound format", step, k, v), nil)
+			}
+		}
+		// and such a record must not be relocatable
+		pa, _ := inm.Get(c10ctx, "new/a")
+		if pa != nil {
+			_ = inm.Put(c10ctx, &physical.Entry{Key: "new/b", Value: pa.Value})
+			if e, err := fresh.Get(c10ctx, "new/b"); err == nil && e != nil && string(e.Value) == "N-new/a" {
+				res.Violate("c01:tamper:legacy-store:new-record-relocatable", fmt.Sprintf("store with a legacy-format keyring, %s: a record written now under new/a reads back under new/b", step), nil)
+			}
+		}
+		res.Distinct("nontrivial", "legacy-store|"+step)
+	}
+}
+
 func TestVerifC01Tamper(t *testing.T) {
 	res := vout.New("C01", "tamper")
 	defer func() {
@@ -38,6 +111,9 @@ func TestVerifC01Tamper(t *testing.T) {
 			t.Fatal(err)
 		}
 	}()
+	if i, _ := vout.Shard(); i == 0 {
+		c01LegacyStore(t, res)
+	}
 	// the long keys differ only in their last byte, after 305 / 1205 common bytes:
 	// binding that covers only a prefix of the storage key lets them be swapped
 	keys := []string{"k", "a/b", "a/c", "core/x",
